@@ -34,11 +34,15 @@ def _strategy(dll):
                                                              "chain": chain},
                      st.integers(0, 2), st.sampled_from(["rts", "rts", "rts", "bam"]), size, fate,
                      st.sampled_from([0.0, 0.0, 0.001, 0.01, 0.1, 0.5, 1.3, 3.2]), st.sampled_from([False, False, False, False, True]))
-    inbound = st.builds(lambda peer, kind, n, sess, stop, gap: {"op": "inbound", "peer": peer, "kind": kind, "n": n,
-                                                                 "session": sess, "stop_after": stop, "gap": gap},
+    # "abort_at": the peer gives its OWN transfer up that long after its RTS and says so with a Connection Abort naming that
+    # transfer's PGN (an inbound session of the stack ends; its outbound sessions to that peer are none of its business)
+    inbound = st.builds(lambda peer, kind, n, sess, stop, gap, ab: {"op": "inbound", "peer": peer, "kind": kind, "n": n,
+                                                                     "session": sess, "stop_after": stop, "gap": gap,
+                                                                     "abort_at": ab if kind == "rts" else None},
                         st.integers(0, 2), st.sampled_from(["rts", "rts", "bam"]), size,
                         st.integers(0, 15) if fd else st.just(0),
-                        st.sampled_from([None, None, 0, 1, 2]), st.sampled_from([0.0, 0.0, 0.001, 0.01, 0.1, 0.5, 1.3]))
+                        st.sampled_from([None, None, 0, 1, 2]), st.sampled_from([0.0, 0.0, 0.001, 0.01, 0.1, 0.5, 1.3]),
+                        st.sampled_from([None, None, None, 0.0005, 0.01, 0.03, 0.05]))
     rnd = st.lists(st.one_of(send, send, inbound), min_size=1, max_size=40)
     # structured histories that reach the deep state "an inbound session ends (time-out, abort, completion) while an
     # outbound session is in flight, then another outbound session starts": inbound, wait, send, short wait, send ...
@@ -60,7 +64,13 @@ def _strategy(dll):
                          st.sampled_from([None, None, 0, 1]), st.sampled_from([0.0, 0.001, 0.01]),
                          st.sampled_from([0.02, 0.04, 0.08, 0.15, 0.3]), st.integers(300, 400) if fd else st.integers(60, 120), size,
                          st.lists(st.one_of(send, inbound), max_size=4))
-    ops = st.one_of(rnd, rnd, pattern, pattern2)
+    def collide3(b, sess, n1, n2, g, ab, tail):
+        return [{"op": "inbound", "peer": b, "kind": "rts", "n": n1, "session": sess, "stop_after": 0, "gap": 0.0, "abort_at": ab},
+                {"op": "send", "peer": b, "kind": "rts", "n": n2, "fate": {"f": "clean", "k": 0}, "gap": g, "chain": False}] + tail
+    pattern3 = st.builds(collide3, st.integers(0, 2), st.sampled_from([0, 0, 1, 7]) if fd else st.just(0), size, size,
+                         st.sampled_from([0.0, 0.001, 0.01, 0.02]), st.sampled_from([0.005, 0.015, 0.03, 0.05]),
+                         st.lists(st.one_of(send, inbound), max_size=4))
+    ops = st.one_of(rnd, rnd, pattern, pattern2, pattern3)
     # third structured shape (whole case): a transfer whose responder misses a data packet and gives up about when the stack's
     # own T3 expires, window 1, frame writes that take time - both aborts cross on the bus
     lateoff = st.sampled_from([-0.003, -0.0025, -0.002, -0.0015, -0.001, -0.0007, -0.0005, -0.0003, 0.0, 0.0003])
@@ -162,6 +172,7 @@ class C10:
                 return base + (3.0 if fd else 1.25) + 0.3     # no_ack
 
             t = 0.05
+            peer_quiet = {}
             counter = [0]
             last_send = None
             done_ops = set()
@@ -177,6 +188,11 @@ class C10:
                     kind = op["kind"]
                     fate = op["fate"] if kind == "rts" else {"f": "clean"}
                     da = PEERS[op["peer"]] if kind == "rts" else 255
+                    # a responder that will still send its own time-out abort for an earlier transfer names that transfer by
+                    # address pair, session number and PGN only: a new transfer that re-uses the number would be hit by it
+                    # (inherent to the protocol, not the stack's doing) - the next transfer to that peer starts after it
+                    if kind == "rts" and t < peer_quiet.get(op["peer"], 0.0):
+                        t = peer_quiet[op["peer"]]
                     # wait (by construction) until the model has room
                     if fd:
                         live = sorted(x for x in slots[kind] if x > t)
@@ -188,6 +204,8 @@ class C10:
                         if pair_free[da] > t:
                             t = pair_free[da] + 0.001
                         pair_free[da] = t + busy_for(kind, op["n"], fate)
+                    if kind == "rts" and fate.get("late"):
+                        peer_quiet[op["peer"]] = t + (-(-op["n"] // seg)) * rt + 0.05 + fate["late"] + 0.02
                     data = payload(op["n"])
                     if fate["f"] != "clean":
                         failed_fates += 1
@@ -234,6 +252,8 @@ class C10:
                         else:
                             ss = pr.originate_bam(0xFE00 | op["peer"], data, gap=0.05 if not fd else 0.01, session=op["session"] & 15)
                         ss["stop_after"] = op.get("stop_after")
+                        if op.get("abort_at") is not None and op["kind"] == "rts":
+                            pr.abort_own(ss, op["abort_at"])
                     w.at(t, inbound)
             # settle
             t_settle = t + 5.0
